@@ -22,9 +22,9 @@ META = {
     "bounds": {"quick": "one polling step from an arbitrary state: committed position, watermarks and max_batch_size UNBOUNDED "
                         "symbolic ints (0<=low<=high, mbs>=1); bounded runs: 1-2 partitions, <= 3 polls, messages appended per "
                         "partition per poll in a small set, initial high in [0,2], low <= high, committed in {none, 0..high}, "
-                        "max_batch_size in {1,2,3}, reset policy in {absent, earliest, latest}; crash before any of the first 40 "
+                        "max_batch_size in {1,2,3}, reset policy in {absent, earliest, latest}; crash before any of the first 30 "
                         "loop callbacks; synchronous consumer and buffer(2)+asynchronous consumer completing in order",
-               "thorough": "<= 4 polls, 3 partitions, crash over the first 80 callbacks"},
+               "thorough": "<= 3 polls, 3 partitions, crash over the first 60 callbacks"},
     "outside": ["rebalancing", "broker errors (KafkaException paths only as 'partition skipped this poll')",
                 "cudf engine", "real network / librdkafka", "messages with empty values (get_message_batch skips them)",
                 "batches of one partition completing out of order (excluded by the statement)"],
@@ -453,7 +453,7 @@ def obligations(tier):
                 for h0 in ((0, 2) if q else (0, 1, 2, 3)):
                     obls.append({"name": "crash/%s/mbs=%d/reset=%d/h0=%d" % (consumer, mbs, reset, h0),
                                  "body": "body_crash", "pre": "pre_crash",
-                                 "shard": {"consumer": consumer, "crash_window": 40 if q else 80,
+                                 "shard": {"consumer": consumer, "crash_window": 30 if q else 60,
                                            "mbs": mbs, "reset": reset, "h0": h0},
                                  "types": ["int"] * (7 + 3), "budget": 900 if q else 3000})
     return obls
